@@ -45,6 +45,7 @@ func init() {
 			{ID: "C06-R22", Title: "a refused invocation writes nothing to the VM", Floor: 8, Run: refusedInvocationsWriteNothing},
 			{ID: "C06-R23", Title: "evaluations that fail ask the context too", Floor: 2, Run: evaluationsThatFailAskTheContextToo},
 			{ID: "C06-R24", Title: "iterators that are not bounded by data poll the context", Floor: 1, Run: iteratorsThatAreNotBoundedByDataPollTheContext},
+			{ID: "C06-R25", Title: "what ends a blocked operation waits for no lock that the operation holds", Floor: 1, Run: whatEndsABlockedOperationWaitsForNoLockItHolds},
 		},
 	})
 }
